@@ -103,6 +103,8 @@ def judge(case, im, mo):
         got = val(r["ok"])
         if got != want:
             yield ("pred", f"{op}: value {got} is not the exact result {want}", f"{op}-inexact")
+        elif want == 0:
+            pass  # which prefix a zero result carries is nobody's business (the "closest prefix" of 0 is a degenerate question): the value is judged
         elif r["ok"] != mo[op] and not (near_tie(want) and r["ok"]["p"] != mo[op]["p"]):
             yield ("corr", f"{op}: representation {r['ok']} vs model {mo[op]}")
         if op == "scale" and "ok" in r and r["ok"].get("p") != case["b"]["p"]:
